@@ -98,12 +98,41 @@ type HidRec struct {
 	W      time.Duration
 }
 
+// AliasElem is an element struct (elements are not pointerified) in which a
+// field of every supported kind - arrays included - carries a dialsalias tag.
+type AliasElem struct {
+	Num   int            `dials:"num" dialsalias:"num_old"`
+	Text  string         `dials:"text" dialsalias:"text_old"`
+	On    bool           `dials:"on" dialsalias:"on_old"`
+	Rate  float64        `dials:"rate" dialsalias:"rate_old"`
+	Pair  [2]int         `dials:"pair" dialsalias:"pair_old"`
+	Names [2]string      `dials:"names" dialsalias:"names_old"`
+	Grid  [2][2]int      `dials:"grid" dialsalias:"grid_old"`
+	List  []string       `dials:"list" dialsalias:"list_old"`
+	ByKey map[string]int `dials:"by_key" dialsalias:"by_key_old"`
+	Ptr   *int           `dials:"ptr" dialsalias:"ptr_old"`
+	Sub   Small          `dials:"sub" dialsalias:"sub_old"`
+	PSub  *Small         `dials:"p_sub" dialsalias:"p_sub_old"`
+	Wait  time.Duration  `dials:"wait" dialsalias:"wait_old"`
+	Level shape.Level    `dials:"level" dialsalias:"level_old"`
+	Color shape.Color    `dials:"color" dialsalias:"color_old"`
+	Plain int            `dials:"plain"`
+}
+
+// EmbAliasElems embeds-able holder of such elements.
+type EmbAliasElems struct {
+	EaeList []AliasElem  `dials:"eae_list"`
+	EaePair [2]AliasElem `dials:"eae_pair" dialsalias:"eae_pair_old"`
+}
+
 // Handle is a named uintptr (a kind the flag sources and the decoders accept
 // and the string-casting path does not).
 type Handle uintptr
 
 func init() {
 	shape.RegisterBase("Handle", reflect.TypeOf(Handle(0)))
+	shape.RegisterBase("AliasElem", reflect.TypeOf(AliasElem{}))
+	shape.RegisterBase("EmbAliasElems", reflect.TypeOf(EmbAliasElems{}))
 	shape.RegisterBase("map[uintptr]string", reflect.TypeOf(map[uintptr]string(nil)))
 	shape.RegisterBase("map[Handle]int", reflect.TypeOf(map[Handle]int(nil)))
 	shape.RegisterBase("Small", reflect.TypeOf(Small{}))
